@@ -493,5 +493,10 @@ def generate():
     out.append('def lanczosReflectBelow : Rat := %s' % ratlit(lz['test']))
     out.append('/-- `y = %s` (main branch) and `y = %s` (reflection) -/' % (lz['y'], lz['refl']))
     out.append('def lanczosShape : List String := ["%s", "%s"]' % (re.sub(r'\s+', '', lz['y']), re.sub(r'\s+', '', lz['refl'])))
+    shape_ok = (re.sub(r'\s+', '', lz['y']) == 'sqrt(2*M_PI)*pow(t,z+0.5)*exp(-t)*x'
+                and re.sub(r'\s+', '', lz['refl']) == 'M_PI/(sin(M_PI*z)*gamma_func(1.-z))')
+    out.append('/-- the two closing expressions are the Lanczos formula and the reflection formula, literally (the correspondence harness\n'
+               '    applies sqrt / pow / exp / sin in floating point around the exact series of the model) -/')
+    out.append('def lanczosShapeOk : Bool := %s' % ('true' if shape_ok else 'false'))
     out.append('end Gen.PDFs\nend DadiVerif\n')
     return '\n'.join(out)
